@@ -26,10 +26,23 @@ static void* vf_resolve(const char* module, const char* name) {
 #define VF_RESOLVER NULL
 #endif
 
+/* fault injection: with FAIL_EVERY > 0 every FAIL_EVERY-th pthread_create made after the workers have started (i.e. those made by
+ * wasi thread-spawn) fails with EAGAIN, as it does on a host that has run out of threads */
+#include <errno.h>
+static int vf_fail_every; static int vf_create_calls;
+int __real_pthread_create(pthread_t* t, const pthread_attr_t* a, void* (*f)(void*), void* arg);
+int __wrap_pthread_create(pthread_t* t, const pthread_attr_t* a, void* (*f)(void*), void* arg) {
+    int fe = __atomic_load_n(&vf_fail_every, __ATOMIC_SEQ_CST);
+    if (fe > 0 && (__sync_add_and_fetch(&vf_create_calls, 1) % fe) == 0) return EAGAIN;
+    return __real_pthread_create(t, a, f, arg);
+}
+static pthread_barrier_t vf_go;
+
 typedef struct { int t; int k; U32* rets; } Arg;
 static int DEPTH;     /* > 0: every started thread spawns again, DEPTH generations deep (the depth travels in the top byte of the argument) */
 static void* worker(void* p) {
     Arg* a = (Arg*)p; int i;
+    pthread_barrier_wait(&vf_go);
     for (i = 0; i < a->k; i++) a->rets[i] = m_spawn(&inst, (U32)(a->t * 1000 + i + 1) | ((U32)DEPTH << 24));
     return NULL;
 }
@@ -41,8 +54,12 @@ int main(int argc, char** argv) {
     (void)argc;
     if (!wasiInit(1, argv, environ)) return 2;
     mInstantiate(&inst, VF_RESOLVER);
+    pthread_barrier_init(&vf_go, NULL, (unsigned)T + 1);
     for (i = 0; i < T; i++) { args[i].t = i; args[i].k = K; args[i].rets = (U32*)calloc((size_t)K, sizeof(U32)); pthread_create(&th[i], NULL, worker, &args[i]); }
+    __atomic_store_n(&vf_fail_every, argc > 4 ? atoi(argv[4]) : 0, __ATOMIC_SEQ_CST);
+    pthread_barrier_wait(&vf_go);
     for (i = 0; i < T; i++) pthread_join(th[i], NULL);
+    __atomic_store_n(&vf_fail_every, 0, __ATOMIC_SEQ_CST);
     total = 0;
     for (i = 0; i < T; i++) for (j = 0; j < K; j++) { printf("S %u %d\n", (unsigned)(i * 1000 + j + 1) | ((unsigned)DEPTH << 24), (int)args[i].rets[j]); if ((int)args[i].rets[j] > 0) total++; }
     /* wait (bounded) until every started thread - and every thread those started - has logged */
@@ -58,6 +75,8 @@ int main(int argc, char** argv) {
         }
         printf("N %u\n", n);
         printf("X %u\n", (unsigned)m_decoyruns(&inst));
+        /* the shared memory is what it was, whatever happened to individual spawns */
+        printf("P %u %u\n", mem->pages, (unsigned)(mem->data != NULL));
         /* spawns made by the module's own threads: (argument, returned id) pairs logged at 32768 */
         { U32 n2, q; memcpy(&n2, mem->data + 8, 4);
           for (q = 0; q < n2 && q < 3000; q++) { U32 a2; I32 r2; memcpy(&a2, mem->data + 32768 + q * 8, 4); memcpy(&r2, mem->data + 32772 + q * 8, 4); printf("S %u %d\n", a2, r2); } }
